@@ -932,3 +932,276 @@ func inlineGuardClosures(fd *ast.FuncDecl) {
 	}
 	fd.Body.List = out
 }
+
+// mapExprs rewrites, bottom-up, every expression slot below root with f (statement and expression parents that occur in
+// the translated fragments).
+func mapExprs(root ast.Node, f func(ast.Expr) ast.Expr) {
+	var walk func(n ast.Node)
+	re := func(e ast.Expr) ast.Expr {
+		if e == nil {
+			return nil
+		}
+		walk(e)
+		return f(e)
+	}
+	walk = func(n ast.Node) {
+		switch y := n.(type) {
+		case *ast.BlockStmt:
+			for _, s := range y.List {
+				walk(s)
+			}
+		case *ast.ExprStmt:
+			y.X = re(y.X)
+		case *ast.AssignStmt:
+			for i := range y.Lhs {
+				y.Lhs[i] = re(y.Lhs[i])
+			}
+			for i := range y.Rhs {
+				y.Rhs[i] = re(y.Rhs[i])
+			}
+		case *ast.ReturnStmt:
+			for i := range y.Results {
+				y.Results[i] = re(y.Results[i])
+			}
+		case *ast.IfStmt:
+			if y.Init != nil {
+				walk(y.Init)
+			}
+			y.Cond = re(y.Cond)
+			walk(y.Body)
+			if y.Else != nil {
+				walk(y.Else)
+			}
+		case *ast.ForStmt:
+			if y.Init != nil {
+				walk(y.Init)
+			}
+			if y.Cond != nil {
+				y.Cond = re(y.Cond)
+			}
+			if y.Post != nil {
+				walk(y.Post)
+			}
+			walk(y.Body)
+		case *ast.RangeStmt:
+			y.X = re(y.X)
+			walk(y.Body)
+		case *ast.DeclStmt, *ast.BranchStmt, *ast.EmptyStmt:
+		case *ast.IncDecStmt:
+			y.X = re(y.X)
+		case *ast.SendStmt:
+			y.Chan, y.Value = re(y.Chan), re(y.Value)
+		case *ast.DeferStmt:
+			y.Call = re(y.Call).(*ast.CallExpr)
+		case *ast.GoStmt:
+			y.Call = re(y.Call).(*ast.CallExpr)
+		case *ast.CallExpr:
+			y.Fun = re(y.Fun)
+			for i := range y.Args {
+				y.Args[i] = re(y.Args[i])
+			}
+		case *ast.UnaryExpr:
+			y.X = re(y.X)
+		case *ast.StarExpr:
+			y.X = re(y.X)
+		case *ast.ParenExpr:
+			y.X = re(y.X)
+		case *ast.BinaryExpr:
+			y.X, y.Y = re(y.X), re(y.Y)
+		case *ast.SelectorExpr:
+			y.X = re(y.X)
+		case *ast.IndexExpr:
+			y.X, y.Index = re(y.X), re(y.Index)
+		case *ast.KeyValueExpr:
+			y.Value = re(y.Value)
+		case *ast.CompositeLit:
+			for i := range y.Elts {
+				y.Elts[i] = re(y.Elts[i])
+			}
+		case *ast.FuncLit:
+			walk(y.Body)
+		case *ast.TypeAssertExpr:
+			y.X = re(y.X)
+		}
+	}
+	walk(root)
+}
+
+// inlineMethodHelpers (family optics): an unexported helper method of a translated struct with one result, used as
+// `x := recv.helper(a1, …, an)` at the top level of another method's body, is replaced by its body (parameters renamed to
+// the identifier arguments, the helper's receiver to the caller's), its final `return E` becoming `x := E`. When E is
+// `&v` for a local v of the helper, x is an alias: later `*x` reads v and `x` passes `&v`. Helpers whose every use was
+// inlined are dropped from the method list. Anything else is left alone (and rejected by the translator as before).
+func inlineMethodHelpers(ms []*ast.FuncDecl, standard map[string]bool) []*ast.FuncDecl {
+	helpers := map[string]*ast.FuncDecl{}
+	for _, fd := range ms {
+		if !standard[fd.Name.Name] && !fd.Name.IsExported() && fd.Body != nil && fd.Type.Results != nil &&
+			len(fd.Type.Results.List) == 1 && len(fd.Type.Results.List[0].Names) == 0 && len(fd.Body.List) > 0 {
+			if _, ok := fd.Body.List[len(fd.Body.List)-1].(*ast.ReturnStmt); ok {
+				helpers[fd.Name.Name] = fd
+			}
+		}
+	}
+	if len(helpers) == 0 {
+		return ms
+	}
+	names := func(n ast.Node) map[string]bool {
+		m := map[string]bool{}
+		ast.Inspect(n, func(x ast.Node) bool {
+			if i, ok := x.(*ast.Ident); ok {
+				m[i.Name] = true
+			}
+			return true
+		})
+		return m
+	}
+	fresh := func(h *ast.FuncDecl) *ast.FuncDecl { // a private copy of the helper, from a fresh parse of its file
+		f := parse(fset.Position(h.Pos()).Filename)
+		for _, d := range f.Decls {
+			if fd, ok := d.(*ast.FuncDecl); ok && fd.Recv != nil && fd.Name.Name == h.Name.Name && src(fd.Recv.List[0].Type) == src(h.Recv.List[0].Type) {
+				return fd
+			}
+		}
+		return nil
+	}
+	remaining := map[string]int{}
+	for _, fd := range ms {
+		if helpers[fd.Name.Name] != nil || fd.Body == nil || len(fd.Recv.List[0].Names) != 1 {
+			continue
+		}
+		rr := fd.Recv.List[0].Names[0].Name
+		out := []ast.Stmt{}
+		list := fd.Body.List
+		for k := 0; k < len(list); k++ {
+			st := list[k]
+			as, ok := st.(*ast.AssignStmt)
+			var call *ast.CallExpr
+			if ok && as.Tok == token.DEFINE && len(as.Lhs) == 1 && len(as.Rhs) == 1 {
+				call, _ = as.Rhs[0].(*ast.CallExpr)
+			}
+			var h *ast.FuncDecl
+			if call != nil {
+				if sel, ok := call.Fun.(*ast.SelectorExpr); ok {
+					if r, ok := sel.X.(*ast.Ident); ok && r.Name == rr {
+						h = helpers[sel.Sel.Name]
+					}
+				}
+			}
+			if h == nil {
+				out = append(out, st)
+				continue
+			}
+			x, _ := as.Lhs[0].(*ast.Ident)
+			hc := fresh(h)
+			okInline := x != nil && hc != nil && len(hc.Recv.List[0].Names) == 1
+			ren := map[string]string{}
+			if okInline {
+				ren[hc.Recv.List[0].Names[0].Name] = rr
+				ps := []string{}
+				for _, p := range hc.Type.Params.List {
+					for _, n := range p.Names {
+						ps = append(ps, n.Name)
+					}
+				}
+				if len(ps) != len(call.Args) {
+					okInline = false
+				}
+				for i := range ps {
+					if !okInline {
+						break
+					}
+					a, isId := call.Args[i].(*ast.Ident)
+					if !isId {
+						okInline = false
+						break
+					}
+					ren[ps[i]] = a.Name
+				}
+			}
+			if okInline {
+				// locals of the helper must be new to the caller
+				callerNames := names(fd)
+				ast.Inspect(hc.Body, func(n ast.Node) bool {
+					switch y := n.(type) {
+					case *ast.AssignStmt:
+						if y.Tok == token.DEFINE {
+							for _, l := range y.Lhs {
+								if i, ok := l.(*ast.Ident); ok && callerNames[i.Name] {
+									okInline = false
+								}
+							}
+						}
+					case *ast.ValueSpec:
+						for _, i := range y.Names {
+							if callerNames[i.Name] {
+								okInline = false
+							}
+						}
+					case *ast.ReturnStmt:
+						if n != hc.Body.List[len(hc.Body.List)-1] {
+							okInline = false // an early return
+						}
+					}
+					return true
+				})
+			}
+			if !okInline {
+				remaining[h.Name.Name]++
+				out = append(out, st)
+				continue
+			}
+			ast.Inspect(hc.Body, func(n ast.Node) bool {
+				if i, ok := n.(*ast.Ident); ok {
+					if to, ok := ren[i.Name]; ok {
+						i.Name = to
+					}
+				}
+				return true
+			})
+			body := hc.Body.List
+			res := body[len(body)-1].(*ast.ReturnStmt).Results[0]
+			out = append(out, body[:len(body)-1]...)
+			if u, ok := res.(*ast.UnaryExpr); ok && u.Op == token.AND {
+				if v, ok := u.X.(*ast.Ident); ok {
+					// x aliases &v in what follows
+					rest := &ast.BlockStmt{List: list[k+1:]}
+					mapExprs(rest, func(e ast.Expr) ast.Expr {
+						switch y := e.(type) {
+						case *ast.StarExpr:
+							if i, ok := y.X.(*ast.UnaryExpr); ok && i.Op == token.AND {
+								if j, ok := i.X.(*ast.Ident); ok && j.Name == v.Name {
+									return ast.NewIdent(v.Name) // *(&v)
+								}
+							}
+						case *ast.Ident:
+							if y.Name == x.Name {
+								return &ast.UnaryExpr{Op: token.AND, X: ast.NewIdent(v.Name)}
+							}
+						}
+						return e
+					})
+					continue
+				}
+			}
+			out = append(out, &ast.AssignStmt{Lhs: []ast.Expr{x}, Tok: token.DEFINE, Rhs: []ast.Expr{res}})
+		}
+		fd.Body.List = out
+		// any other mention of a helper in this method keeps the helper
+		ast.Inspect(fd.Body, func(n ast.Node) bool {
+			if sel, ok := n.(*ast.SelectorExpr); ok && helpers[sel.Sel.Name] != nil {
+				if r, ok := sel.X.(*ast.Ident); ok && r.Name == rr {
+					remaining[sel.Sel.Name]++
+				}
+			}
+			return true
+		})
+	}
+	keep := []*ast.FuncDecl{}
+	for _, fd := range ms {
+		if helpers[fd.Name.Name] != nil && remaining[fd.Name.Name] == 0 {
+			continue
+		}
+		keep = append(keep, fd)
+	}
+	return keep
+}
